@@ -24,7 +24,7 @@ CLAIMED = {
     "C07": dict(
         text="Lean theorems about a character-level model of the parser (everything accepted is well-formed and in range; rejection classes; macros = expansions; whitespace insignificant; missing year = every year); tie: regenerated bounds/glossaries/macro table + accept/reject differential on grammar, invalid-by-construction, single-edit mutant and raw-byte streams, meaning compared through NextFireTime.",
         note="Go regexp/strconv/strings/unicode behaviour is re-implemented in the model and compared, not verified",
-        technique="Lean 4 proofs about a parser model (its integer helpers and boundary table TRANSLATED from quartz/cron.go on every run and proved equal: trans_inScope, trans_fillRangeValues, trans_fillStepValues, trans_boundaryTable) + regenerated facts + differential correspondence",
+        technique="Lean 4 proofs about a parser model proved EQUAL to the parser TRANSLATED from quartz/cron.go + util.go on every run (gotolean-parse, gotolean-cron: text level, integer helpers, regexps / glossaries / macro table as data; library functions as externals; trans_NewCronTrigger, C07_*_trans, end to end trans_newTrigger_nextFire) + regenerated facts + differential correspondence",
         ref="DESIGN.md §6 C07"),
 }
 
@@ -69,13 +69,13 @@ CLAIMED["C10"] = dict(
 CLAIMED["C12"] = dict(
     text="Lean theorems about an interleaving model of the three-way dispatch (inline / rendezvous hand-off to a fixed pool over the unbuffered channel / one goroutine per execution) for ALL reachable states: in-flight <= 1 in blocking mode, = busy workers <= n with WorkerLimit n, n in flight reachable for every n, the loop never waits on a job in unbounded mode (enabledness independent of the in-flight count), a full pool is the only thing that blocks the loop, BlockingExecution ignores WorkerLimit; negative controls (buffered channel, swapped switch order). Tie: regenerated facts (dispatch capacity 0, switch case order and arms, startWorkers guard, worker loop bound and body) + instrumented jobs with in-flight counters and barriers on real schedulers.",
     note="genuine parallelism needs >= n runnable Ps (16 here): observed by barriers with deadlines, not proved",
-    technique="Lean 4 inductive invariants over all interleavings + regenerated structural facts + barrier harness",
+    technique="Lean 4 inductive invariants over all interleavings, whose per-goroutine code (dispatch switch, startWorkers, worker rounds) is TRANSLATED from quartz/scheduler.go on every run and proved equal to the model's code parameters (gotolean-retry: trans_dispatch_arm, trans_startWorkers, trans_dispatchCap, trans_worker_rounds) + regenerated structural facts + barrier harness",
     ref="DESIGN.md §6 C12")
 
 CLAIMED["C13"] = dict(
     text="Lean theorems about executeWithRetries as a total function of (MaxRetries, outcome script, cancel point), for ALL of them: attempts = 1 + min(max 0 MaxRetries, failures before the first success); stops on the first success; a context end during the k-th wait gives exactly k attempts; the trace is attempt, wait, attempt, ... so every re-attempt is preceded by one RetryInterval wait (with a timed version: starts are >= interval after the previous end); a panic ends the sequence, is consumed by the deferred recover and the function returns normally (the result type has no propagated-panic outcome; recovered iff some attempt panicked). Tie: regenerated shape of executeWithRetries (deferred recover first, loop bounds i:=1; i<=MaxRetries, break on success, ctx.Done break, call sites) pinned by decide + exhaustive differential: MaxRetries in {-1..4} x all outcome strings of length <= 5 over {ok, err, panic} x three execution modes on the real scheduler, plus cancellations; sibling job, next fire time and Wait observed after panics.",
     note="time.NewTimer/select/defer-recover semantics trusted; real-time gaps >= RetryInterval observed one-sidedly",
-    technique="Lean 4 proofs about a transcribed retry loop + regenerated shape facts + exhaustive differential correspondence",
+    technique="Lean 4 proofs about a retry-loop model proved EQUAL to executeWithRetries TRANSLATED from quartz/scheduler.go on every run, for every script, MaxRetries, cancel point and select choice (gotolean-retry: trans_executeWithRetries, C13_*_trans, C13_*_any for arbitrary externals) + regenerated shape facts + exhaustive differential correspondence",
     ref="DESIGN.md §6 C13")
 CLAIMED["C17"] = dict(
     text="Lean theorems about an interleaving model of isolatedJob.Execute (atomic swap, delegate, deferred store) for ANY number of threads and ALL interleavings via an inductive invariant: at most one thread is inside the delegate or between its exit and the store (C17_mutex); a call that sees the flag set never enters the delegate and returns the error (C17_fail_fast); flag true iff some thread holds it, and after any completion incl. panic the holder's next step clears it, so the next call is admitted (C17_reopens, C17_admitted_when_free, C17_reopens_progress); proved negative control without the defer (a panic shuts the gate for ever). Tie: regenerated facts (swap guard returning an error first, defer Store(false) before the delegate call, atomic.Bool) + hammer: 32 goroutines with in-flight counter, panics, rejected calls never invoke the delegate, quiescent probe admitted, also through a real scheduler.",
@@ -97,12 +97,12 @@ CLAIMED["C18"] = dict(
 CLAIMED["C05"] = dict(
     text="Lean theorems about an interleaving model of the execution loop (Size, Head, arm timer, select, tick) with any number of API calls (lock, mutate, send token), no fairness or timing assumption, for ALL interleavings: whenever the queue's earliest fire time moved forward since the loop last read it, a token is pending, a send is pending, or the loop has not read yet (C05_invariant); hence a loop blocked in select without a token is armed for a deadline that covers the earliest fire time of the CURRENT queue (C05_parked_correct, C05_never_lost); taking a token always leads back to reading the queue; the send never blocks. Instantiated with facts regenerated from the source (interrupt capacity 1, Reset() is select-send-default, ScheduleJob/ResumeJob send after the mutation under the lock, loop order). Proved negative controls: capacity 0, no send, send before the mutation, no re-read, blocking send. Tie: facts + scenario matrix on the real scheduler (5 park modes x 3 calls x 4 stall points x 4 interleaves of other mutations) with a latency verdict.",
     note="'promptly' additionally needs timer accuracy and goroutine fairness: observed with a 300 ms one-sided threshold, not proved",
-    technique="Lean 4 inductive invariant over all interleavings, parameterised by regenerated facts + scenario matrix",
+    technique="Lean 4 inductive invariant over all interleavings, parameterised by regenerated facts; Reset() and the loop iteration's use of the interrupt channel TRANSLATED from the source on every run (gotolean-loop: trans_Reset, trans_iter_interrupt_use, trans_iter_exit) + scenario matrix",
     ref="DESIGN.md §6 C05")
 CLAIMED["C15"] = dict(
     text="Lean theorems about the loop with every queue-call result, clock reading and select outcome as an input, for ALL fault plans: after a Pop/Push error read at time t no later iteration ticks before t + RetryInterval whatever faults and interrupts follow, and the deadline is not postponed by interrupts (C15_backoff, C15_deadline_not_postponed; negative controls: no back-off state spins, the flag variant is starved by interrupts — the two repaired defects); every API method returns the error of its first failing queue call and makes no further call; a dispatch only follows a successful Pop of that entry and at most one push per pop, so no (job, fire time) is dispatched twice; once faults stop the loop behaves exactly like the fault-free loop (C15_recovers). Tie: regenerated facts (the loop's switch cases and timer arguments, retryAt assignment, error returns of fetchAndReschedule and of each API method) + fault-injecting queue: single faults exhaustively by call index x {fail, delay}, bursts, random mixes in child processes; judged for panics, hangs, propagation, duplicates, call rate, recovery under API traffic.",
     note="call rates and recovery latency are observed with one-sided thresholds; a queue on which a failed call has no effect is assumed for no-double-fire",
-    technique="Lean 4 proofs over all fault assignments + regenerated facts + exhaustive single-fault injection",
+    technique="Lean 4 proofs over all fault assignments about the loop iteration TRANSLATED from quartz/scheduler.go on every run and proved equal to the loop model (gotolean-loop: trans_iter = Faults.iter, C15_backoff_trans, C15_deadline_not_postponed_trans, C15_no_double_fire_trans; the extracted shape facts are implied by the translated code) + proved refutation of the full-strength rate clause for Size()/Head() (known finding) + exhaustive single-fault injection",
     ref="DESIGN.md §6 C15")
 
 REASON_PENDING = "check not built yet (build phase in progress); planned per DESIGN.md §6"
